@@ -556,7 +556,9 @@ fn main() {
         ctx.finish();
     }
     let v3 = "iroh-relay-v3";
-    let mut tokens: Vec<String> = vec![V1.into(), V2.into(), v3.into(), "".into(), format!(" {V2} "), "IROH-RELAY-V2".into()];
+    // near-miss tokens that merely *contain* a supported name (prefix, suffix, longer version number) are in
+    // both tiers: a substring-matching negotiation (seeded change C11-seed13) is only visible through them
+    let mut tokens: Vec<String> = vec![V1.into(), V2.into(), v3.into(), "".into(), format!(" {V2} "), "IROH-RELAY-V2".into(), "iroh-relay-v10".into(), "iroh-relay-v20".into(), "x-iroh-relay-v2".into()];
     if ctx.thorough() {
         tokens.extend([format!("\t{V1}\t"), format!("{V1}x"), "iroh-relay-v".into(), "Iroh-Relay-V1".into()]);
     }
